@@ -827,10 +827,13 @@ func Validate(dir Dir) error {
 			case idx == i:
 				// If the file is in its original place, it was edited.
 				err.Reason = ReasonEdited
-			default:
+			case i < len(ex):
 				// File was not in its original place, meaning another file was added before it.
 				err.File = ex[i].N
 				err.Reason = ReasonAdded
+			default:
+				// The sum file holds more entries than there are files in the directory.
+				err.Reason = ReasonRemoved
 			}
 			return err
 		}
